@@ -756,6 +756,13 @@ pub fn drive_c19(t: &Tier, m: &mut Matrix, sink: &mut Sink) {
             }
         }
     }
+    // beyond the listed properties: Bvd::new(data, length) refuses a length the data cannot hold
+    for words in [0usize, 1, 2, 3] {
+        for n in [0usize, 1, 63, 64, 65, 128, 129, 192, 193, 300] {
+            let c = Case::new("bvd_new", vec![]).a(Args { n: Some(n as u128), i: Some(words), ..Default::default() }).xk(vec![Kind::D]).cf("sig");
+            sink.emit(m.run(&c));
+        }
+    }
     // the growable kinds under debug assertions: out-of-range indices within the allocation
     if t.dbg {
         for kind in [Kind::D, Kind::A] {
